@@ -34,18 +34,23 @@ CHECK = {
          "params": {"block": 16, "exhaustive": {"quick": 0, "thorough": 1}},
          "case_timeout": 300},
         {"name": "lattice-progs", "variant": "asan", "harness": "c02_boolean.cpp",
-         "cases": {"quick": 1200, "thorough": 40000},
+         "cases": {"quick": 1200, "thorough": 20000},
          "params": {"maxN": {"quick": 4, "thorough": 6}, "depth": 6},
          "case_timeout": 300},
         {"name": "lattice-touch", "variant": "asan", "harness": "c02_boolean.cpp",
-         "cases": {"quick": 200, "thorough": 6000},
+         "cases": {"quick": 200, "thorough": 3000},
          "params": {"per": 24},
          "case_timeout": 300},
         {"name": "general", "variant": "asan", "harness": "c02_boolean.cpp",
-         "cases": {"quick": 400, "thorough": 4000},
+         "cases": {"quick": 400, "thorough": 2500},
          "params": {"sharedTris": {"quick": 12, "thorough": 16}, "ownTris": {"quick": 12, "thorough": 16},
                     "strata": 4, "detail": {"quick": 1, "thorough": 3}},
          "case_timeout": 600},
+        # parallel library (real TBB, MANIFOLD_PAR=1): operands of >= 1e4 triangles cross the autoPolicy thresholds
+        {"name": "general-par", "variant": "tbb", "harness": "c02_boolean.cpp", "tiers": ("thorough",),
+         "cases": {"quick": 0, "thorough": 40},
+         "params": {"sharedTris": 10, "ownTris": 10, "strata": 3, "detail": 8, "pBatch": 0.2, "pChain": 0.3},
+         "case_timeout": 1200},
     ],
     "assumptions": [
         "the solid-angle winding-number classifier and brute-force point-triangle distance in harness/common/oracles.h "
